@@ -545,8 +545,45 @@ def countexact(run, fx):
             run.held('VALIDATEFIRST', inst, fn.where(), '%d abstract executions: buffers of 0..3 units over unit classes %s' % (cases, ['%X' % u for u in reps]))
 
 
+def errset(run, fx):
+    """`*pError` is the function's second result: NULL for well-formed text, the offending position otherwise.  The only code that writes
+    it is count_unicode_chars; so every return of gr_count_unicode_characters for a valid encoding form hands the caller's pError to
+    count_unicode_chars (an early `return 0` for, say, an empty range leaves whatever the caller had in the variable: an empty range is
+    well-formed text of 0 characters and must report NULL)."""
+    from .validators import case_context
+    fn = fx.one('gr_count_unicode_characters')
+    pe = [p_ for p_ in fn.f['params'] if '**' in p_['t'].replace(' ', '')]
+    if len(pe) != 1:
+        run.broken('VALIDATEFIRST', 'pError is always written', 'the error out-parameter of gr_count_unicode_characters was not recognised', fn.where())
+        return
+    ctx = case_context(fn)
+    n = 0
+    for _, e in fn.elements():
+        if e['k'] != 'ReturnStmt':
+            continue
+        n += 1
+        inst = 'pError is written before the return @%s' % e['ln']
+        fwd = [x for x in fn.walk(e['c'][0]) if x['k'] == 'CallExpr' and 'count_unicode_chars' in (x.get('fq') or '')
+               and any(fn.strip_all_casts(fn.N(a)).get('vid') == pe[0]['vid'] for a in x.get('args', []))] if e.get('c') else []
+        if fwd:
+            run.held('VALIDATEFIRST', inst, fn.loc(e), 'returns count_unicode_chars(.., pError)')
+        elif ctx.get(fn.block_of[e['i']]) == ('default',) or (fn.blocks[fn.block_of[e['i']]].get('label') or {}).get('k') == 'DefaultStmt':
+            run.held('VALIDATEFIRST', inst, fn.loc(e), 'the arm for an invalid encoding form (outside the contract)', False)
+        else:
+            stores = [x for _, x in fn.elements() if x['k'] == 'BinaryOperator' and x['op'] == '=' and fn.strip(x['c'][0])['k'] == 'UnaryOperator'
+                      and fn.strip_all_casts(fn.N(fn.strip(x['c'][0])['c'][0])).get('vid') == pe[0]['vid'] and fn.block_of[x['i']] in fn.dominators()[fn.block_of[e['i']]]]
+            if stores:
+                run.held('VALIDATEFIRST', inst, fn.loc(e), 'stores *pError itself before returning')
+            else:
+                run.violated('VALIDATEFIRST', inst, fn.loc(e), 'gr_count_unicode_characters returns here for a valid encoding form without calling count_unicode_chars and without storing '
+                             '*pError: the caller\'s variable keeps its old value, so well-formed text (an empty range is 0 well-formed characters) is not reported with *pError == NULL')
+    if n < 3:
+        run.broken('VALIDATEFIRST', 'pError is always written', 'expected a return per encoding form, found %d' % n, fn.where())
+
+
 def run(run):
     fx = run.facts('Q0')
+    errset(run, fx)
     validatefirst(run, fx)
     countexact(run, fx)
     validateback(run, fx)
